@@ -28,6 +28,7 @@ type Inserter struct {
 	db          objects.Store
 	pt          pbar.Bar
 	tbl         *objects.Table
+	mu          sync.Mutex // guards asyncBlocks and rowsCount, which every worker updates
 	asyncBlocks []asyncBlock
 	rowsCount   uint32
 	wg          sync.WaitGroup
@@ -84,7 +85,6 @@ func (i *Inserter) insertBlock() {
 			i.errChan <- err
 			return
 		}
-		i.rowsCount += uint32(blk.RowsCount)
 
 		// write block index and add pk sums to table index
 		idx, err := objects.IndexBlockFromBytes(dec, hash, e, blk.Block, i.tbl.PK)
@@ -100,12 +100,15 @@ func (i *Inserter) insertBlock() {
 			return
 		}
 		i.logger.Info("index block", "blockSum", sum, "indexSum", blkIdxSum)
+		i.mu.Lock()
+		i.rowsCount += uint32(blk.RowsCount)
 		i.asyncBlocks = append(i.asyncBlocks, asyncBlock{
 			Offset: blk.Offset,
 			Sum:    sum,
 			IdxSum: blkIdxSum,
 			PK:     blk.PK,
 		})
+		i.mu.Unlock()
 		if i.pt != nil {
 			i.pt.Incr()
 		}
